@@ -2563,6 +2563,8 @@ class SequenceAndSetBase(base.ConstructedAsn1Type):
                 value = componentType.getTypeByPosition(idx)
                 if isinstance(value, base.ConstructedAsn1Type):
                     value = value.clone(cloneValueFlag=componentType[idx].isDefaulted)
+                    if componentType[idx].isOptional:
+                        value.reset()
 
             elif currentValue is noValue:
                 raise error.PyAsn1Error('Component type not defined')
